@@ -155,6 +155,10 @@ def apply_rewrites(reply, rewrites, ctx):
                 for nm in ("error-status", "error-index"):
                     _set_int(tree, nm, 0 if spec != snmp.PDU_GETBULK or nm == "error-status" else 10)
                 label["varbinds"] = [[o, ["null"]] for o, _ in label.get("varbinds", [])]
+        elif field == "max-size":
+            # msgMaxSize announced by the sender: any value in 484..2^31-1 is legal (RFC 3412)
+            if _set_int(tree, "max-size", spec):
+                label["max_size"] = spec
         elif field == "widths":
             # legal but non-minimal: long-form lengths (k length octets) on the named elements.
             # The message stays well-formed BER: nothing about its acceptance changes.
